@@ -93,3 +93,84 @@ def name_routes(r, s, s2=None):
             out.append(("symlink-l0", E.encode(E.Fields(level=0, method=b"-lhd-", name=s,
                                                         area=bytes([0x55, 0, 0, 0, 0, 0]) + (0o120777).to_bytes(2, "little") + b"\0\0\0\0"))))
     return out
+
+
+# --------------------------------------------------------------------------
+# random well-formed headers (typed fields)
+
+def rand_name(r, maxlen=20, alphabet=None):
+    alphabet = alphabet or b"abcXYZ019._-| "
+    n = r.randrange(1, maxlen + 1)
+    return bytes(r.choice(alphabet) for _ in range(n))
+
+
+def rand_exts(r, level, want_name=True, want_path=None, allow_common=True):
+    """random list of extended headers (typed), in random order, with duplicates and unknown types"""
+    exts = []
+    if want_name:
+        exts.append((E.EXT_FILENAME, rand_name(r, r.choice([1, 3, 12, 60]))))
+    if want_path or (want_path is None and r.random() < 0.5):
+        comps = [rand_name(r, 6, b"abcDEF12") for _ in range(r.randrange(1, 4))]
+        p = b"\xff".join(comps) + (b"\xff" if r.random() < 0.8 else b"")
+        exts.append((E.EXT_PATH, p))
+    opt = [
+        lambda: (E.EXT_PERM, r.choice([0o100644, 0o40755, 0o100000, 0o177777, r.randrange(65536)]).to_bytes(2, "little")),
+        lambda: (E.EXT_UIDGID, r.randrange(65536).to_bytes(2, "little") + r.randrange(65536).to_bytes(2, "little")),
+        lambda: (E.EXT_GROUP, rand_name(r, 8, b"grpGRP09")),
+        lambda: (E.EXT_USER, rand_name(r, 8, b"usrUSR09")),
+        lambda: (E.EXT_UTIME, r.choice([0, 1, 0x7fffffff, 0xffffffff, r.randrange(2 ** 32)]).to_bytes(4, "little")),
+        lambda: (E.EXT_WINTIME, bytes(r.randrange(256) for _ in range(24))),
+        lambda: (E.EXT_OS9, bytes(r.randrange(256) for _ in range(12))),
+        lambda: (r.choice([0x39, 0x3f, 0x40, 0x7f, 0xff, 0x42]), bytes(r.randrange(256) for _ in range(r.randrange(0, 9)))),
+        # too-short known headers are skipped by the parser
+        lambda: (r.choice([E.EXT_PERM, E.EXT_UIDGID, E.EXT_UTIME, E.EXT_WINTIME, E.EXT_OS9]), b"\x01"),
+    ]
+    for _ in range(r.choice([0, 1, 2, 3, 5])):
+        exts.append(r.choice(opt)())
+    if r.random() < 0.15 and exts:
+        exts.append(r.choice(exts))          # duplicate
+    r.shuffle(exts)
+    return exts
+
+
+def rand_fields(r, level=None):
+    level = r.randrange(4) if level is None else level
+    method = r.choice(METHODS)
+    is_dir = method == b"-lhd-"
+    f = E.Fields(level=level, method=method,
+                 clen=r.choice([0, 1, 100, 70000, 0xffffffff, r.randrange(2 ** 32)]),
+                 length=r.choice([0, 1, 100, 70000, 0xffffffff, r.randrange(2 ** 32)]),
+                 crc=r.randrange(65536), os_type=r.choice(OS_TYPES), attr=r.choice([0x20, 0x10, 0]))
+    if level in (0, 1):
+        f.time = E.dos_time(r.randrange(1980, 2108), r.randrange(0, 16), r.randrange(0, 32), r.randrange(0, 32),
+                            r.randrange(0, 64), r.randrange(0, 64)) if r.random() < 0.9 else 0
+        nm = rand_name(r, r.choice([1, 8, 30, 100]), b"abcXYZ019._-\\ ")
+        if is_dir and r.random() < 0.7:
+            nm += b"\\"
+        f.name = nm
+        if level == 0 and r.random() < 0.4:
+            k = r.random()
+            if k < 0.5:    # unix area
+                f.area = bytes([r.choice([0x55, 0x4b]), 0]) + r.randrange(2 ** 32).to_bytes(4, "little") + \
+                    bytes(r.randrange(256) for _ in range(r.choice([0, 0, 4]))) + \
+                    r.choice([0o100644, 0o40755, r.randrange(65536)]).to_bytes(2, "little") + \
+                    r.randrange(65536).to_bytes(2, "little") + r.randrange(65536).to_bytes(2, "little")
+            elif k < 0.8:  # os9 area
+                a = bytearray(r.randrange(256) for _ in range(22))
+                a[0] = 0x39; a[9] = 0xcc; a[17] = a[1]; a[18] = a[2]
+                f.area = bytes(a)
+            else:
+                f.area = bytes(r.randrange(256) for _ in range(r.randrange(1, 14)))
+        if level == 1:
+            f.clen = r.choice([0, 5, 1000, 2 ** 31])
+            if r.random() < 0.7:
+                f.exts = rand_exts(r, 1, want_name=r.random() < 0.3, want_path=None)
+                f.common_crc = r.random() < 0.4
+    else:
+        f.time = r.choice([0, 1, 0x7fffffff, 0xffffffff, r.randrange(2 ** 32)])
+        f.exts = rand_exts(r, level, want_name=not is_dir or r.random() < 0.3, want_path=True if is_dir else None)
+        f.common_crc = r.random() < 0.5
+    if f.common_crc:
+        f.common_pos = r.randrange(len(f.exts) + 1)
+        f.common_extra = bytes(r.randrange(256) for _ in range(r.choice([0, 0, 0, 3])))
+    return f
